@@ -517,3 +517,6 @@ func (w *World) VerifCapSum() int {
 	}
 	return sum
 }
+
+// VerifLocks reports the number of lock bits currently held.
+func (w *World) VerifLocks() int { return w.locks.locks.TotalBitsSet() }
